@@ -396,7 +396,7 @@ def folder_message_evaluation(ctx, rep, rule) -> bool:
 def check(ctx, rep):
     prog = ctx.prog
     eff = Effects(prog, ctx.resolver)
-    rep.rule("R05a", "selector encoder (renderobjinfo) and decoder (handle) of each URL-based protocol use the same codec; one decoding layer; safe chars exclude separators", floor=3)
+    rep.rule("R05a", "selector encoder (renderobjinfo) and decoder (handle) of each URL-based protocol use the same codec; one decoding layer; safe chars exclude separators", floor=1)
     rep.rule("R05h", "= R13e: names taken from file content (HTML titles, mail subjects) are whitespace-collapsed, so the tab-separated menu line keeps its fields", floor=2)
     rep.rule("R05b", "WAP prefix: same configuration value rendered and stripped; Gemini query prefix: same class constant", floor=2)
     rep.rule("R05g", "each URL-based protocol maps a request target to the selector it names (evaluated on 12 targets per protocol)", floor=3)
